@@ -118,12 +118,60 @@ Theorem c05_key_filters : forall keys x,
 Proof. intros keys x. split; [apply allow_keys_filter_spec | reflexivity]. Qed.
 Print Assumptions c05_key_filters.
 
-(** The default encoding of a set holding only string values decodes (split on unescaped ',' and '=',
-    drop escapes) to exactly the set's bindings: escaping makes it lossless, hence injective, for every
-    set of string attributes whatever bytes keys and values contain. *)
-Theorem c05_encode_strings_lossless : forall emit s, EncodingSpec s (encode emit s).
-Proof. exact encode_lossless. Qed.
+(** ** Encoding agrees with the contents.
+    What FormatInt writes for an int64 reads back as that int64, on the whole int64 range. *)
+Theorem c05_int64_text_roundtrip :
+  (forall z, (- Z.of_N TWO63 <= z < Z.of_N TWO63)%Z -> parse_i64 (dec_i64 (bits_of_i64 z)) = Some z) /\
+  (forall n, n < TWO64 -> parse_i64 (dec_i64 n) = Some (i64_of_bits n)).
+Proof. split; [exact i64_text_roundtrip | exact parse_i64_dec]. Qed.
+Print Assumptions c05_int64_text_roundtrip.
+
+(** For every set over INVALID / BOOL / INT64 / STRING / BOOLSLICE / INT64SLICE / STRINGSLICE (string-slice
+    elements JSON-plain, see [json_plain]; keys and strings arbitrary bytes) the default encoding
+    determines the key -> printed value mapping: [decode_enc] reads it back exactly. *)
+Theorem c05_encode_decodable : forall emit s, EncodingSpec s (encode emit s).
+Proof. exact encode_decodable. Qed.
+Print Assumptions c05_encode_decodable.
+
+(** Hence two such sets with the same encoding have the same printed mapping: the encoding is injective
+    up to the printing of values (which forgets the type: see the confusion examples below). *)
+Theorem c05_encode_injective_printed : forall emit1 emit2 s1 s2 l1 l2,
+  printed s1 = Some l1 -> printed s2 = Some l2 -> encode emit1 s1 = encode emit2 s2 -> l1 = l2.
+Proof. exact encode_injective_printed. Qed.
+Print Assumptions c05_encode_injective_printed.
+
+(** Special case kept from the first version: string-valued sets decode to exactly their bindings. *)
+Theorem c05_encode_strings_lossless : forall emit s l,
+  all_some (map string_binding s) = Some l -> decode_enc (encode emit s) = Some l.
+Proof. intros emit s l H. apply encode_decodable. now apply printed_strings. Qed.
 Print Assumptions c05_encode_strings_lossless.
+
+(** The type confusion the text format inherently has: Int64(1), String("1") and (say) Bool(true) /
+    String("true") print alike, so different sets share an encoding -- with the same printed mapping. *)
+Theorem c05_encode_type_confusion :
+  exists s1 s2 l, s1 <> s2 /\ encode (fun _ => []) s1 = encode (fun _ => []) s2 /\ printed s1 = Some l /\ printed s2 = Some l.
+Proof.
+  exists [(str "k", VInt 1); (str "t", VBool true)], [(str "k", VStr (str "1")); (str "t", VStr (str "true"))].
+  eexists. split; [discriminate|]. split; [vm_compute; reflexivity|]. split; vm_compute; reflexivity.
+Qed.
+Print Assumptions c05_encode_type_confusion.
+
+(** Outside the guard injectivity really fails, printed mappings included:
+    (1) a string-slice element holding '=' : {a -> ["x,b=y"]} and {a -> "[\"x", b -> "y\"]"} encode alike;
+    (2) a string-slice element holding a backslash: {k -> ["a\b"]} and {k -> "[\"a\b\"]"} encode alike
+        (JSON doubles the backslash, the string escaper doubles it too). *)
+Theorem c05_encode_injective_refuted_unguarded :
+  (exists s1 s2, encode (fun _ => []) s1 = encode (fun _ => []) s2 /\ map fst s1 <> map fst s2) /\
+  (exists s1 s2, encode (fun _ => []) s1 = encode (fun _ => []) s2 /\ map fst s1 = map fst s2 /\
+                 map (fun x => emit_simple (snd x)) s1 <> map (fun x => emit_simple (snd x)) s2).
+Proof.
+  split.
+  - exists [(str "a", VStrs [str "x,b=y"])], [(str "a", VStr ([91; 34] ++ str "x")); (str "b", VStr (str "y" ++ [34; 93]))].
+    split; [vm_compute; reflexivity | discriminate].
+  - exists [(str "k", VStrs [str "a\b"])], [(str "k", VStr ([91; 34] ++ str "a\b" ++ [34; 93]))].
+    split; [vm_compute; reflexivity|]. split; [reflexivity | vm_compute; discriminate].
+Qed.
+Print Assumptions c05_encode_injective_refuted_unguarded.
 
 (** The boolean checkers applied to the implementation's observations imply the Prop readings. *)
 Theorem c05_checkers_sound :
@@ -162,9 +210,18 @@ Proof. vm_compute. reflexivity. Qed.
 Example ex_lookup : set_value (new_set ex_in) (str "b") = Some (VInts [1; 2]) /\ set_value (new_set ex_in) (str "ab") = None.
 Proof. vm_compute. auto. Qed.
 Example ex_encode :
-  let s := [(str "a,b", VStr (str "x=y\")); (str "k", VStr [])] in
-  encode (fun _ => []) s = str "a\,b=x\=y\\,k=" /\
-  decode_strings (encode (fun _ => []) s) = Some [(str "a,b", str "x=y\"); (str "k", [])].
+  let s := [(str "a,b", VStr (str "x=y\")); (str "i", VInts [1; 18446744073709551615]); (str "k", VStr []);
+            (str "s", VStrs [str "p,q"; str "r s"]); (str "t", VBools [true; false])] in
+  encode (fun _ => []) s = str "a\,b=x\=y\\,i=[1,-1],k=,s=[" ++ [34] ++ str "p,q" ++ [34; 44; 34] ++ str "r s" ++ [34] ++ str "],t=[true false]" /\
+  printed s = Some [(str "a,b", str "x=y\"); (str "i", str "[1,-1]"); (str "k", []);
+                    (str "s", [91; 34] ++ str "p,q" ++ [34; 44; 34] ++ str "r s" ++ [34; 93]); (str "t", str "[true false]")] /\
+  decode_enc (encode (fun _ => []) s) = printed s.
+Proof. vm_compute. auto. Qed.
+Example ex_json_escaping :
+  text_strs [[34; 92; 10; 1; 60; 127]; []] = [91; 34] ++ str "\" ++ [34] ++ str "\\\n\u0001\u003c" ++ [127; 34; 44; 34; 34; 93].
+Proof. vm_compute. reflexivity. Qed.
+Example ex_int_text : dec_i64 9223372036854775808 = str "-9223372036854775808" /\ dec_i64 0 = str "0" /\
+  parse_i64 (str "-9223372036854775808") = Some (-9223372036854775808)%Z /\ parse_i64 (str "-") = None /\ parse_i64 (str "1x") = None.
 Proof. vm_compute. auto. Qed.
 Example ex_regular_guard_satisfiable :
   kvs_regular [(str "f", VFloats [0; 4607182418800017408]); (str "g", VFloat NEG_ZERO_BITS)] = true.
